@@ -39,7 +39,7 @@ type c09Gen struct {
 func (g *c09Gen) lit() string {
 	switch g.r.Intn(10) {
 	case 0:
-		return g.r.PickS("ab", "user", "a.b", "a:b", "x", "..a", "a..", "A", "B", "User", "aB")
+		return g.r.PickS("ab", "user", "a.b", "a:b", "x", "..a", "a..", "A", "B", "User", "aB", "é", "日本")
 	default:
 		return g.r.PickS("a", "b", "c")
 	}
@@ -208,6 +208,7 @@ func (g *c09Gen) section() verifh.Section {
 	}
 	// requests
 	nreq := r.Range(6, verifh.Scale(24, 40))
+	firstReq := len(ops)
 	custom := r.Chance(1, 3)
 	rep := 4
 	if mode == 1 {
@@ -216,7 +217,7 @@ func (g *c09Gen) section() verifh.Section {
 	tok := func() string {
 		switch r.Intn(12) {
 		case 0:
-			return r.PickS("d", "ab", "user", "zz", ":x", "a.b", "x", "...", "A", "B", "C", "USER", "User", "Ab")
+			return r.PickS("d", "ab", "user", "zz", ":x", "a.b", "x", "...", "A", "B", "C", "USER", "User", "Ab", "é", "日本", "e")
 		default:
 			return r.PickS("a", "b", "c")
 		}
@@ -283,6 +284,35 @@ func (g *c09Gen) section() verifh.Section {
 			}
 		}
 		ops = append(ops, fmt.Sprintf("req m=%s p=%s n=%d", m, p, rep))
+	}
+	// late registrations: routes added after requests were already served
+	if r.Chance(1, 4) {
+		for k, n := 0, r.Range(1, 3); k < n; k++ {
+			id++
+			m := regs[r.Intn(len(regs))].m
+			var toks []string
+			if r.Bool() {
+				toks = g.pattern(mode, names)
+			} else {
+				toks = append([]string{}, regs[r.Intn(len(regs))].toks...) // duplicate or other method
+				if r.Bool() {
+					m = c09Methods[r.Intn(len(c09Methods))]
+				}
+			}
+			at := firstReq + r.Intn(len(ops)-firstReq+1)
+			op := fmt.Sprintf("route m=%s p=%s h=%d", m, g.dirty(toks, 12), id)
+			ops = append(ops[:at], append([]string{op}, ops[at:]...)...)
+			// and ask for it afterwards
+			var inst []string
+			for _, t := range toks {
+				if strings.HasPrefix(t, ":") {
+					inst = append(inst, tok())
+				} else {
+					inst = append(inst, t)
+				}
+			}
+			ops = append(ops, fmt.Sprintf("req m=%s p=%s n=%d", m, g.dirty(inst, 10), rep))
+		}
 	}
 	return verifh.Section{Cfg: fmt.Sprintf("kind=router mode=%d", mode), Ops: ops}
 }
